@@ -47,6 +47,9 @@ CHECKS = {
          "trace validation (panic = unmatched event) + TLA+ invariants"),
 }
 
+CHECKS["C11"] = ("Oracle-free twin validation: a game and its three symmetric images are played in lock-step on four engine instances and every observation (board, "
+                 "status, both action lists, previews, results) must be the image of the base under ArimaaSym's maps; TLC separately checks that the spec commutes "
+                 "with the maps on all reachable states of 3x3/4x4 models", "6.C11", "TLA+ symmetry maps + twin-trace validation")
 CHECKS["C20"] = ("PList.tla models the persistent history list with refcounts and two drop disciplines; TLC proves the iterative discipline stack-bounded and the "
                  "recursive one not; the code is bound to the iterative discipline by process-level observation (ladder of capture-free games up to 400k/1.2M turns on a "
                  "2 MiB stack, stack-size bisection at two lengths, two build profiles) validated by DropTrace.tla; first 3000 turns trace-validated", "6.C20",
